@@ -279,6 +279,14 @@ def build_registry(darsia, rng):
     wim = darsia.Image(np.full((4, 5), 2.0), space_dim=2, dimensions=list(mass1.dimensions), scalar=True)
     opts = {"num_iter": 3, "return_info": True}
     add("wasserstein_bregman_weighted", [mass1, mass2, wim, opts], lambda: darsia.wasserstein_distance(mass1, mass2, "bregman", weight=wim, options=opts))
+    # iterative back-ends on a grid large enough for a genuine multilevel hierarchy (more than 100 cells)
+    rb_ = np.random.default_rng(11)
+    big1 = darsia.Image(rb_.random((12, 11)), space_dim=2, dimensions=[1.2, 1.1], scalar=True)
+    big2 = darsia.Image(rb_.random((12, 11)), space_dim=2, dimensions=[1.2, 1.1], scalar=True)
+    big2.img *= big1.img.sum() / big2.img.sum()
+    for meth_, ls_ in (("newton", "amg"), ("bregman", "cg")):
+        add(f"wasserstein_{meth_}_{ls_}_multilevel", [big1, big2], lambda meth_=meth_, ls_=ls_: darsia.wasserstein_distance(
+            big1, big2, meth_, options={"num_iter": 2, "linear_solver": ls_, "formulation": "pressure", "linear_solver_options": {"atol": 1e-10, "rtol": 1e-10, "maxiter": 200}}))
     # a weight that vanishes (exactly, or below any regularisation) in a part of the domain
     wz = np.full((4, 5), 1.5)
     wz[0, :2] = 0.0
